@@ -112,6 +112,26 @@ def shard(ctx):
     if race_guard(ctx, out, "new fields"):
         rc = 0
     ctx.process(recs, out, rc, "TestVerifConcNewFields")
+    sibling(ctx, files)
+
+def sibling(ctx, files):
+    """A delete of the measurement's only series racing writers that create sibling series (SiblingDrop.tla)."""
+    sd = ctx.spec_dir("siblingdrop")
+    base = {"Writers": ['"w1"', '"w2"']}
+    inv = ["TypeOK", "C19_SiblingAckedReadable"]
+    # the repaired design holds; the behaviour found in the repository (check-then-act in the index, field-set
+    # cleanup that looks at the cache only) and the half repair are negative controls (recorded finding F32)
+    ctx.write_cfg(sd, "Rep.cfg", "Spec", dict(base, AtomicDrop=True, CleanupSeesIndex=True), inv)
+    ctx.tlc_check(sd, "SiblingDrop", "Rep.cfg", workers=2, timeout=300)
+    for a, c in ((False, False), (True, False)):
+        ctx.write_cfg(sd, "Neg.cfg", "Spec", dict(base, AtomicDrop=a, CleanupSeesIndex=c), inv)
+        ctx.tlc_check(sd, "SiblingDrop", "Neg.cfg", workers=2, timeout=300, expect_ok=False)
+    recs, out, rc = ctx.go_test("tsdb", files, "^TestVerifConcSiblingSeries$", race=True, timeout=1800, label="sibling-race",
+                                env={"VERIF_ROUNDS": ctx.pick(6, 40), "VERIF_PERROUND": ctx.pick(40, 100)})
+    if race_guard(ctx, out, "sibling series"):
+        rc = 0
+    d = ctx.process(recs, out, rc, "TestVerifConcSiblingSeries")
+    ctx.cov["sibling_series_writes"] = d.get("writes", 0)
 
 def validate_vis(ctx, sd, files):
     consts = {"Series": ['"s1"', '"s2"', '"s3"'], "MaxK": 100000, "Readers": ['"r1"', '"r2"']}
